@@ -392,7 +392,7 @@ pub fn run(ctx: &Ctx) -> (Report, PropertyMeta) {
     let r = run_cases(ctx, "slow", &cases, slow_outcome);
     report.exhaustive_parts.push(format!("PUB/XPUB x with/without a healthy subscriber x 6 stall budgets x 7 message sizes around the 128 KiB high-water mark x (stall-then-resume, never-drain + broken peer): {} cases", cases.len()));
     report.merge(r);
-    let n = t.pick(600, 40_000);
+    let n = t.pick(2500, 100_000);
     let budget = t.pick(3 << 20, 8 << 20);
     let r = run_random(ctx, "slow", n, 60..=500, |s| gen_slow(s, budget), slow_outcome);
     report.sections.push(json!({"part": "random back-pressure patterns (stall after k bytes, partial writes, resume, break) for 1..3 slow subscribers, 20..400 publishes", "cases": n}));
